@@ -39,6 +39,13 @@ class ExecutionContext:
 
         return result
 
+    def __Divide(self, resultType: LinearIR.Type, a, b):
+        # Integer division truncates toward zero, like the wasm backend
+        if isinstance(resultType, LinearIR.IntegerType):
+            quotient = abs(a) // abs(b)
+            return quotient if (a < 0) == (b < 0) else -quotient
+        return a / b
+
     def __CreateInstance(self, varType: LinearIR.Type):
         if varType.IsPrimitive():
             return self.__CreatePrimitiveInstance(varType)
@@ -176,7 +183,9 @@ class ExecutionContext:
                         case LinearIR.OpCode.SUB:
                             localScope[ref] = op1 - op2
                         case LinearIR.OpCode.DIV:
-                            localScope[ref] = op1 / op2
+                            localScope[ref] = self.__Divide(
+                                instruction.Type, op1, op2
+                            )
                         case LinearIR.OpCode.MUL:
                             localScope[ref] = op1 * op2
                         case LinearIR.OpCode.MOD:
@@ -202,7 +211,10 @@ class ExecutionContext:
                         case LinearIR.OpCode.VECTOR_SUB:
                             localScope[ref] = [x - y for x, y in zip(op1, op2)]
                         case LinearIR.OpCode.VECTOR_DIV:
-                            localScope[ref] = [x / y for x, y in zip(op1, op2)]
+                            localScope[ref] = [
+                                self.__Divide(instruction.Type.ElementType, x, y)
+                                for x, y in zip(op1, op2)
+                            ]
                         case LinearIR.OpCode.VECTOR_MUL:
                             localScope[ref] = [x * y for x, y in zip(op1, op2)]
                         case LinearIR.OpCode.VECTOR_CMP_GT:
@@ -232,7 +244,12 @@ class ExecutionContext:
                         case LinearIR.OpCode.VECTOR_MUL_SCALAR:
                             localScope[ref] = [v * op2 for v in op1]
                         case LinearIR.OpCode.VECTOR_DIV_SCALAR:
-                            localScope[ref] = [v / op2 for v in op1]
+                            localScope[ref] = [
+                                self.__Divide(
+                                    instruction.Type.ElementType, v, op2
+                                )
+                                for v in op1
+                            ]
                         case LinearIR.OpCode.MATRIX_MUL_MATRIX:
                             localScope[ref] = self.__MatrixMatrixMultiply(
                                 instruction.Type.Shape, op1, op2
